@@ -32,7 +32,7 @@ impl Rx {
     pub fn udp(v6: bool) -> Option<Rx> {
         let host = if v6 { "[::1]:0" } else { "127.0.0.1:0" };
         let rx = UdpSocket::bind(host).ok()?;
-        rx.set_read_timeout(Some(Duration::from_secs(3))).ok()?;
+        rx.set_read_timeout(Some(Duration::from_secs(15))).ok()?;
         let tx = UdpSocket::bind(host).ok()?;
         Some(Rx::Udp(rx, tx))
     }
@@ -40,7 +40,7 @@ impl Rx {
         let p = tmp_path(tag);
         let _ = std::fs::remove_file(&p);
         let rx = UnixDatagram::bind(&p).expect("bind unix receiver");
-        rx.set_read_timeout(Some(Duration::from_secs(3))).unwrap();
+        rx.set_read_timeout(Some(Duration::from_secs(15))).unwrap();
         Rx::Unix(rx, UnixDatagram::unbound().unwrap(), p)
     }
     pub fn addr(&self) -> SocketAddr {
@@ -393,7 +393,7 @@ pub fn buffered(spec: &crate::Spec) -> Report {
                     if down {
                         let p = unix_path.clone().unwrap();
                         let r = UnixDatagram::bind(&p).unwrap();
-                        r.set_read_timeout(Some(Duration::from_secs(3))).unwrap();
+                        r.set_read_timeout(Some(Duration::from_secs(15))).unwrap();
                         rx = Rx::Unix(r, UnixDatagram::unbound().unwrap(), p);
                         down = false;
                     }
@@ -536,7 +536,7 @@ pub fn stats_faults(spec: &crate::Spec) -> Report {
         let mk_unix_rx = |p: &PathBuf| {
             let _ = std::fs::remove_file(p);
             let r = UnixDatagram::bind(p).unwrap();
-            r.set_read_timeout(Some(Duration::from_secs(3))).unwrap();
+            r.set_read_timeout(Some(Duration::from_secs(15))).unwrap();
             Rx::Unix(r, UnixDatagram::unbound().unwrap(), p.clone())
         };
         if udp_rx.is_none() {
@@ -644,11 +644,6 @@ pub fn stats_faults(spec: &crate::Spec) -> Report {
             let up = udp_rx.is_some() || rx.is_some();
             if !buffered {
                 let _ = q.emit("viaq");
-                let t0 = std::time::Instant::now();
-                while q.drained() < 1 && t0.elapsed() < Duration::from_secs(3) {
-                    std::thread::sleep(Duration::from_millis(1));
-                }
-                // the worker updates the counters after taking the metric: wait for them to move
                 let mut want = before.clone();
                 if up {
                     want.packets_sent += 1;
@@ -657,13 +652,21 @@ pub fn stats_faults(spec: &crate::Spec) -> Report {
                     want.packets_dropped += 1;
                     want.bytes_dropped += 4;
                 }
+                // the worker thread runs freely here: wait (generously) until it has taken the metric
+                // and the send has been accounted for; running out of time is a machinery error
                 let t0 = std::time::Instant::now();
-                loop {
+                let mut settled = false;
+                while t0.elapsed() < Duration::from_secs(60) {
                     let s = q.stats();
-                    if s.packets_sent + s.packets_dropped >= want.packets_sent + want.packets_dropped || t0.elapsed() > Duration::from_secs(3) {
+                    if q.drained() >= 1 && s.packets_sent + s.packets_dropped >= want.packets_sent + want.packets_dropped {
+                        settled = true;
                         break;
                     }
                     std::thread::sleep(Duration::from_millis(1));
+                }
+                if !settled {
+                    rep.errors.push(format!("{}: the queuing sink's worker did not process one metric within 60 s", ctx));
+                    return rep;
                 }
                 check_stats(&mut rep, &format!("{} after one more emit through a queuing sink", ctx), &q.stats(), &want);
                 rep.flag("read-through-queuing-sink");
